@@ -3,6 +3,9 @@ package main
 import (
 	"flag"
 	"fmt"
+	"go/types"
+
+	"golang.org/x/tools/go/ssa"
 	"os"
 	"sort"
 	"strings"
@@ -169,6 +172,22 @@ func cmdSweep(args []string) {
 	}
 }
 
+// returnedClosure: a function literal directly inside a function whose result is function-typed - the
+// closure is the value handed to other code, so it is verified on its own (captured variables unknown).
+func returnedClosure(fn *ssa.Function) bool {
+	p := fn.Parent()
+	if p == nil || p.Parent() != nil {
+		return false
+	}
+	res := p.Signature.Results()
+	for i := 0; i < res.Len(); i++ {
+		if _, ok := res.At(i).Type().Underlying().(*types.Signature); ok {
+			return true
+		}
+	}
+	return false
+}
+
 // sweepKeys: source-level functions of the loaded packages (no synthetic wrappers, closures only with a contract).
 func (e *Engine) sweepKeys(prefix string) []string {
 	initial := map[string]bool{}
@@ -190,7 +209,7 @@ func (e *Engine) sweepKeys(prefix string) []string {
 		if root.Pkg == nil || !initial[root.Pkg.Pkg.Path()] {
 			continue
 		}
-		if fn.Parent() != nil && e.contracts.Funcs[k] == nil {
+		if fn.Parent() != nil && e.contractFor(fn) == nil && !returnedClosure(fn) {
 			continue
 		}
 		keys = append(keys, k)
